@@ -602,7 +602,7 @@ func (c *arCtx) mathExtra(call *ast.CallExpr, name string) *arVal {
 			}
 		}
 	}
-	return nil
+	return c.mathExtra3(call, name) // arith3.go
 }
 
 // sdk.Coin: IsZero / IsPositive / IsNegative are the tests of its Amount
